@@ -318,7 +318,10 @@ func genExecFacts(repo string) (string, error) {
 		nparams          int
 	}
 	wantN := []nm{{nativenames.Gas, "transfer", 4}, {nativenames.Policy, "setFeePerByte", 1}, {nativenames.Policy, "blockAccount", 1},
-		{nativenames.Policy, "unblockAccount", 1}, {nativenames.Management, "deploy", 2}}
+		{nativenames.Policy, "unblockAccount", 1}, {nativenames.Management, "deploy", 2},
+		{nativenames.Management, "update", 2}, {nativenames.Management, "destroy", 0},
+		{nativenames.Designation, "designateAsRole", 2}, {nativenames.Policy, "setWhitelistFeeContract", 4},
+		{nativenames.Policy, "removeWhitelistFeeContract", 3}, {nativenames.Neo, "transfer", 4}, {nativenames.Neo, "vote", 2}}
 	var nerr error
 	flagsN := map[nm]int{}
 	func() {
